@@ -450,6 +450,15 @@ fn ids(t: &mut Tracer, r: &mut Rng) {
     for s in ["", " ", "/", "UTC ", "Z", "+00:00", "utc", "gmt", "Etc/Unknown", "posix/UTC", "right/UTC", "posixrules", "localtime", "tzdata.zi", "Europe", "America/Argentina", "../UTC"] {
         t.call("Tzdb.check", json!({"chars": chars(s)}));
     }
+    // history: what the provider has read must not change what it says about identifiers. Files of the database directory that are
+    // no IANA names (and names in another case) are looked up - successfully or not - and then checked again in the same spelling.
+    for s in ["posixrules", "Factory", "localtime", "posix/UTC", "right/UTC", "Nowhere/Land", "europe/berlin", "Europe/Berlin", "EUROPE/BERLIN"] {
+        t.call("Tzdb.table", json!({"zone": s}));
+        t.call("Tzdb.offset", json!({"zone": s, "t": pt(1_000_000_000, 0)}));
+        t.call("Tzdb.check", json!({"chars": chars(s)}));
+        t.call("Tzdb.local", json!({"zone": s, "local": local_json(1_000_000_000, 0)}));
+        t.call("Tzdb.check", json!({"chars": chars(s)}));
+    }
 }
 
 fn nparts_or(a: &[String], i: usize) -> usize { a.get(i).and_then(|s| s.parse().ok()).unwrap_or(0) }
